@@ -32,7 +32,7 @@ def defarg(chk, fx):
             for p in f.o["params"]:
                 if p.get("default") is None:
                     continue
-                t = f.facts.TC(p["t"]).replace("enum ", "")
+                t = f.facts.TC(p["t"]).replace("enum ", "").replace("const ", "").replace("&", "").strip()
                 if t not in WANT:
                     continue
                 want, what = WANT[t]
